@@ -33,6 +33,10 @@ def UsersOk (h : History) : Prop := ∀ em ∈ h, em.2.userOk
 settlements (`settle1`, x/auction `CloseDutchAuction`) are allowed: they keep every equation exact -/
 def NoSettle (h : History) : Prop := ∀ em ∈ h, em.2.notSettle
 
+/-- the history contains no emergency redemption of a STABLE-MINT vault (`esmStable`, x/esm — finding D29: the record stays
+behind); every other emergency-shutdown step (`esmVault`, `esmCollector`, `esmBurn`) is allowed -/
+def NoEsmStable (h : History) : Prop := ∀ em ∈ h, em.2.notEsmStable
+
 /-- offsets that only auction settlements can produce: custody, count and collateral totals stay exact; the minted
 total and the supply can only fall BELOW the recorded principal -/
 def GoodGaps (G : Gaps) : Prop :=
@@ -52,14 +56,14 @@ theorem init_inv (cfg : Nat → Option Product) (hc : CfgOk cfg) : Inv cfg State
 
 /-- one message: the invariant is kept relative to offsets that stay good; only a settlement changes them -/
 theorem apply_invG (cfg : Nat → Option Product) (hc : CfgOk cfg) (G : Gaps) (s : State) (e : Env) (m : Msg)
-    (hm : m.userOk) (hinv : InvG cfg G s) (hg : GoodGaps G) :
+    (hm : m.userOk) (hne : m.notEsmStable) (hinv : InvG cfg G s) (hg : GoodGaps G) :
     ∃ G', InvG cfg G' (apply cfg s e m) ∧ GoodGaps G' ∧ (m.notSettle → G' = G) := by
   unfold apply
   cases h : step cfg s e m with
   | none => exact ⟨G, by simpa using hinv, hg, fun _ => rfl⟩
   | some s' =>
     by_cases hns : m.notSettle
-    · exact ⟨G, by simpa using step_inv cfg G hc s s' e m hm hns hinv h, hg, fun _ => rfl⟩
+    · exact ⟨G, by simpa using step_inv cfg G hc s s' e m hm hns hne hinv h, hg, fun _ => rfl⟩
     · cases m with
       | settle v =>
         simp only [step, Msg.product] at h
@@ -85,61 +89,63 @@ theorem apply_invG (cfg : Nat → Option Product) (hc : CfgOk cfg) (G : Gaps) (s
       | _ => exact absurd (by simp [Msg.notSettle]) hns
 
 /-- the ledger invariant holds after every history, relative to offsets that only settlements move -/
-theorem invG_always (cfg : Nat → Option Product) (hc : CfgOk cfg) (h : History) (hu : UsersOk h) (G : Gaps) (s : State)
+theorem invG_always (cfg : Nat → Option Product) (hc : CfgOk cfg) (h : History) (hu : UsersOk h) (hne : NoEsmStable h)
+    (G : Gaps) (s : State)
     (hinv : InvG cfg G s) (hg : GoodGaps G) :
     ∃ G', InvG cfg G' (runAll cfg s h) ∧ GoodGaps G' ∧ (NoSettle h → G' = G) := by
   induction h generalizing s G with
   | nil => exact ⟨G, hinv, hg, fun _ => rfl⟩
   | cons em t ih =>
     simp only [runAll, List.foldl_cons]
-    obtain ⟨G1, h1, g1, e1⟩ := apply_invG cfg hc G s em.1 em.2 (hu em (by simp)) hinv hg
-    obtain ⟨G2, h2, g2, e2⟩ := ih (fun x hx => hu x (by simp [hx])) G1 _ h1 g1
+    obtain ⟨G1, h1, g1, e1⟩ := apply_invG cfg hc G s em.1 em.2 (hu em (by simp)) (hne em (by simp)) hinv hg
+    obtain ⟨G2, h2, g2, e2⟩ := ih (fun x hx => hu x (by simp [hx])) (fun x hx => hne x (by simp [hx])) G1 _ h1 g1
     refine ⟨G2, h2, g2, fun hn => ?_⟩
     rw [e2 (fun x hx => hn x (by simp [hx])), e1 (hn em (by simp))]
 
 theorem goodGaps_zero : GoodGaps Gaps.zero := by simp [GoodGaps, Gaps.zero]
 
 /-- histories without auction settlement keep the invariant with all offsets zero -/
-theorem inv_always (cfg : Nat → Option Product) (hc : CfgOk cfg) (h : History) (hu : UsersOk h) (hn : NoSettle h) :
+theorem inv_always (cfg : Nat → Option Product) (hc : CfgOk cfg) (h : History) (hu : UsersOk h) (hne : NoEsmStable h)
+    (hn : NoSettle h) :
     Inv cfg (runAll cfg State.init h) := by
-  obtain ⟨G', h', _, e⟩ := invG_always cfg hc h hu Gaps.zero State.init ((invG_zero cfg _).mpr (init_inv cfg hc)) goodGaps_zero
+  obtain ⟨G', h', _, e⟩ := invG_always cfg hc h hu hne Gaps.zero State.init ((invG_zero cfg _).mpr (init_inv cfg hc)) goodGaps_zero
   rw [e hn] at h'; exact (invG_zero cfg _).mp h'
 
 /-- **Custody**: after EVERY history (including liquidation seizures and auction settlements) the vault-module balance
 of every denom = collateral recorded on open + stable-mint vaults of that denom + coins sent there unsolicited. -/
-theorem custody_eq (cfg : Nat → Option Product) (hc : CfgOk cfg) (h : History) (hu : UsersOk h) (d : Nat) :
+theorem custody_eq (cfg : Nat → Option Product) (hc : CfgOk cfg) (h : History) (hu : UsersOk h) (hne : NoEsmStable h) (d : Nat) :
     let s := runAll cfg State.init h
     s.bal vm d = collRecorded cfg s d + s.unsolicited d := by
-  obtain ⟨G', h', g, _⟩ := invG_always cfg hc h hu Gaps.zero State.init ((invG_zero cfg _).mpr (init_inv cfg hc)) goodGaps_zero
+  obtain ⟨G', h', g, _⟩ := invG_always cfg hc h hu hne Gaps.zero State.init ((invG_zero cfg _).mpr (init_inv cfg hc)) goodGaps_zero
   have := h'.2.2.1 d
   simp only [CustodyAtG, g.1 d] at this
   simpa using this
 
 /-- **Count**: after every history the published vault count equals the number of open vaults. -/
-theorem count_eq (cfg : Nat → Option Product) (hc : CfgOk cfg) (h : History) (hu : UsersOk h) :
+theorem count_eq (cfg : Nat → Option Product) (hc : CfgOk cfg) (h : History) (hu : UsersOk h) (hne : NoEsmStable h) :
     let s := runAll cfg State.init h
     s.length = s.vaults.length := by
-  obtain ⟨G', h', g, _⟩ := invG_always cfg hc h hu Gaps.zero State.init ((invG_zero cfg _).mpr (init_inv cfg hc)) goodGaps_zero
+  obtain ⟨G', h', g, _⟩ := invG_always cfg hc h hu hne Gaps.zero State.init ((invG_zero cfg _).mpr (init_inv cfg hc)) goodGaps_zero
   have := h'.2.1
   simp only [CountOkG, g.2.1] at this
   simpa using this
 
 /-- **Totals, collateral**: after every history the published collateral-locked total of every product equals the sum
 over open, stable-mint and awaiting-auction vaults. -/
-theorem totals_coll_eq (cfg : Nat → Option Product) (hc : CfgOk cfg) (h : History) (hu : UsersOk h) (prod : Nat) :
+theorem totals_coll_eq (cfg : Nat → Option Product) (hc : CfgOk cfg) (h : History) (hu : UsersOk h) (hne : NoEsmStable h) (prod : Nat) :
     let s := runAll cfg State.init h
     s.coll prod = collOfProduct s prod := by
-  obtain ⟨G', h', g, _⟩ := invG_always cfg hc h hu Gaps.zero State.init ((invG_zero cfg _).mpr (init_inv cfg hc)) goodGaps_zero
+  obtain ⟨G', h', g, _⟩ := invG_always cfg hc h hu hne Gaps.zero State.init ((invG_zero cfg _).mpr (init_inv cfg hc)) goodGaps_zero
   have := (h'.2.2.2.1 prod).1
   simp only [g.2.2.1 prod] at this
   simpa using this
 
 /-- **Totals, minted**: after every history the published tokens-minted total is AT MOST the recorded principal
 (open + stable-mint + awaiting auction); it is EQUAL in histories without auction settlement (`totals_eq`). -/
-theorem totals_minted_le (cfg : Nat → Option Product) (hc : CfgOk cfg) (h : History) (hu : UsersOk h) (prod : Nat) :
+theorem totals_minted_le (cfg : Nat → Option Product) (hc : CfgOk cfg) (h : History) (hu : UsersOk h) (hne : NoEsmStable h) (prod : Nat) :
     let s := runAll cfg State.init h
     s.minted prod ≤ mintedOfProduct s prod := by
-  obtain ⟨G', h', g, _⟩ := invG_always cfg hc h hu Gaps.zero State.init ((invG_zero cfg _).mpr (init_inv cfg hc)) goodGaps_zero
+  obtain ⟨G', h', g, _⟩ := invG_always cfg hc h hu hne Gaps.zero State.init ((invG_zero cfg _).mpr (init_inv cfg hc)) goodGaps_zero
   have := (h'.2.2.2.1 prod).2
   have := g.2.2.2.1 prod
   simp only at *
@@ -147,11 +153,11 @@ theorem totals_minted_le (cfg : Nat → Option Product) (hc : CfgOk cfg) (h : Hi
 
 /-- **Totals** (partial: histories without auction settlement — see `totals_after_settlement`): per product, published
 collateral-locked / tokens-minted = sums over open vaults, stable-mint vaults and vaults awaiting auction settlement. -/
-theorem totals_eq (cfg : Nat → Option Product) (hc : CfgOk cfg) (h : History) (hu : UsersOk h) (hn : NoSettle h)
+theorem totals_eq (cfg : Nat → Option Product) (hc : CfgOk cfg) (h : History) (hu : UsersOk h) (hne : NoEsmStable h) (hn : NoSettle h)
     (prod : Nat) :
     let s := runAll cfg State.init h
     s.coll prod = collOfProduct s prod ∧ s.minted prod = mintedOfProduct s prod :=
-  (inv_always cfg hc h hu hn).2.2.2.1 prod
+  (inv_always cfg hc h hu hne hn).2.2.2.1 prod
 
 /-- a rejected message leaves the state untouched (message atomicity is part of the model: `apply`) -/
 theorem rejected_no_change (cfg : Nat → Option Product) (s : State) (e : Env) (m : Msg)
@@ -177,6 +183,31 @@ theorem totals_after_settlement (cfg : Nat → Option Product) (s s' : State) (p
     simpa [Gaps.afterSettle, Gaps.zero] using this
   · have := (hinv'.2.2.2.1 l.product).2
     simp only [Gaps.afterSettle, Gaps.zero, if_true] at this
+    omega
+
+/-- **Emergency redemption of a stable-mint vault (finding D29).** After the cool-off period of an emergency shutdown
+`SetUpCollateralRedemptionForStableVault` moves the stable-mint vault's collateral to the esm account and reduces the
+product totals, but never deletes (or zeroes) the stable-mint vault record. From a state satisfying the invariant the
+step leaves custody BELOW the recorded collateral by exactly that vault's collateral and both published totals below the
+sums over the records by its collateral and principal (`Gaps.afterEsmStable`): the custody and totals clauses are false
+afterwards (`esm_stable_counterexample`). Every other emergency-shutdown step keeps all equations (`step_inv`). -/
+theorem custody_after_esm_stable (cfg : Nat → Option Product) (s s' : State) (p : Product) (e : Env) (stableId : Nat)
+    (hinv : Inv cfg s) (hout : ∀ r ∈ s.stables, r.id = stableId → 0 ≤ r.amountOut)
+    (h : esmStable s p e stableId = some s') :
+    ∃ r ∈ s.stables, r.id = stableId ∧
+      s'.bal vm p.denomIn = collRecorded cfg s' p.denomIn + s'.unsolicited p.denomIn - (if r.amountIn > 0 then r.amountIn else 0) ∧
+      s'.coll p.id = collOfProduct s' p.id - r.amountIn ∧
+      s'.minted p.id = mintedOfProduct s' p.id - r.amountOut := by
+  obtain ⟨r, hr, hid, _, hinv'⟩ := esmStable_inv cfg Gaps.zero s s' p e stableId ((invG_zero cfg s).mpr hinv) hout h
+  refine ⟨r, hr, hid, ?_, ?_, ?_⟩
+  · have := hinv'.2.2.1 p.denomIn
+    simp only [CustodyAtG, Gaps.afterEsmStable, Gaps.zero, if_true] at this
+    omega
+  · have := (hinv'.2.2.2.1 p.id).1
+    simp only [Gaps.afterEsmStable, Gaps.zero, if_true] at this
+    omega
+  · have := (hinv'.2.2.2.1 p.id).2
+    simp only [Gaps.afterEsmStable, Gaps.zero, if_true] at this
     omega
 
 /-! ### Non-vacuity: a concrete configuration and history that satisfies the hypotheses and exercises the clauses -/
@@ -218,5 +249,33 @@ theorem totals_eq_gen1_settlement_example :
 example : (runAll demoCfg State.init demoHistory).locked.length = 1 ∧
     (runAll demoCfg State.init demoHistory).bal vm 1 = 7 ∧
     (runAll demoCfg State.init demoHistory).coll 1 = 3001000 := by decide
+
+/-- a stable-mint product (6 → 6 decimals, no fee) next to the demo product -/
+def demoStable : Product :=
+  { id := 2, app := 1, denomIn := 4, denomOut := 3, decIn := 1000000, decOut := 1000000,
+    minCr := 1000000000000000000, debtFloor := 1000, debtCeiling := 1000000000000,
+    drawDownFee := 0, closingFee := 0, isStable := true, active := true, outOracle := true, outPrice := 1000000 }
+def demoCfg2 : Nat → Option Product := fun pr => if pr = 1 then some demoProduct else if pr = 2 then some demoStable else none
+def esmEnv : Env := { demoEnv with esm := true, pastCoolOff := true }
+/-- stable mint of 2 000 000, emergency shutdown, cool-off over, redemption: the stable-mint vault still shows 2 000 000 of
+collateral and principal, custody and both published totals are 0 -/
+theorem esm_stable_counterexample :
+    let s := runAll demoCfg2 State.init [(demoEnv, .fund 10 4 5000000), (demoEnv, .stableCreate 10 1 2 2000000), (esmEnv, .esmStable 1)]
+    s.stables.length = 1 ∧ collRecorded demoCfg2 s 4 = 2000000 ∧ s.bal vm 4 = 0 ∧ s.bal em 4 = 2000000 ∧
+    s.coll 2 = 0 ∧ collOfProduct s 2 = 2000000 ∧ s.minted 2 = 0 ∧ mintedOfProduct s 2 = 2000000 ∧ s.redeem 1 3 = 2000000 := by
+  decide
+
+/-- emergency redemption of an ordinary vault keeps every equation: the demo vault is moved to the redemption pool,
+its principal is registered, a holder then burns part of it -/
+theorem esm_vault_example :
+    let h : History := [(demoEnv, .fund 10 1 5000000), (demoEnv, .create 10 1 1 3000000 2000000), (esmEnv, .esmVault 1),
+                        (esmEnv, .esmBurn 10 1 3 500000)]
+    let s := runAll demoCfg State.init h
+    s.vaults = [] ∧ s.length = 0 ∧ s.bal vm 1 = 0 ∧ s.bal em 1 = 3000000 ∧ s.coll 1 = 0 ∧ s.minted 1 = 0 ∧
+    s.redeem 1 3 = 1500000 ∧ s.supply 3 = 1500000 ∧ s.extSupply 3 = 1500000 ∧ NoEsmStable h ∧ NoSettle h := by
+  refine ⟨by decide, by decide, by decide, by decide, by decide, by decide, by decide, by decide, by decide, ?_, ?_⟩ <;>
+  · intro em h
+    simp only [List.mem_cons, List.not_mem_nil, or_false] at h
+    rcases h with rfl | rfl | rfl | rfl <;> simp [Msg.notEsmStable, Msg.notSettle]
 
 end Comdex.C01
